@@ -20,8 +20,9 @@ def gen_problem(rnd, hermitian=True):
     d = sum(sizes); blocks = sum([[b] * s for b, s in enumerate(sizes)], [])
     k = rnd.choice([1, 1, 2])
     E = []
-    zb = ZERO_BLOCKS
-    for b, s in enumerate(sizes): E += [Fraction(5 * b + rnd.choice([0, 1, 2]) + (0 if zb else 1), 1) for _ in range(s)]
+    zb = rnd.random() < 0.2                                   # a block of H_0 may vanish identically
+    offset = rnd.choice([0, 0, 0, 2 ** 17])                   # a large common offset: gaps far above atol but below 1e-5 of the level values
+    for b, s in enumerate(sizes): E += [Fraction(offset + 5 * b + rnd.choice([0, 1, 2]) + (0 if zb else 1), 1) for _ in range(s)]
     if all(e == 0 for e in E): E[0] = Fraction(1)
     cplx = rnd.random() < 0.5
     def entry():
@@ -95,30 +96,90 @@ def run_impl(P, requests):
 def to_float(m):
     return np.array([[complex(float(z[0]), float(z[1])) for z in row] for row in m])
 
-def run_impl_numeric(P, requests, carrier):
-    """the same problem through the floating-point carriers: dense ndarray / scipy.sparse (the exact model value is the reference)"""
+def level_groups(P):
+    """groups of states inside a block with the same unperturbed energy"""
+    d = P["d"]; k = P["k"]; E = [P["terms"][(0,) * k][a][a] for a in range(d)]; groups = {}
+    for a in range(d): groups.setdefault((P["blocks"][a], E[a]), []).append(a)
+    return [g for g in groups.values()]
+
+def choose_variant(P, rnd):
+    """one presentation of the problem to the floating-point code: carrier x dtype x container x designation of the blocks"""
+    k = P["k"]
+    v = {"carrier": rnd.choice(["dense", "sparse", "spmatrix", "mixed"]),
+         "designation": rnd.choice(["indices", "indices", "vectors", "blocked", "rotated", "blockseries"]),
+         "container": "dict", "int_h0": False}
+    keys = list(P["terms"])
+    if all(sum(n) <= 1 for n in keys) and rnd.random() < 0.5: v["container"] = "list"
+    elif rnd.random() < 0.25 and all(any(n[a] > 0 for n in keys) for a in range(k)): v["container"] = "monomials"   # every symbol must occur in a key
+    E = [P["terms"][(0,) * k][a][a] for a in range(P["d"])]
+    if all(e[0].denominator == 1 and abs(e[0]) < 2**40 for e in E) and rnd.random() < 0.35: v["int_h0"] = True
+    if v["designation"] == "rotated" and max(abs(e[0]) for e in E) > 1000:
+        v["designation"] = "vectors"        # rotating H_0 of size 1e5 leaves rounding residues above the absolute atol = 1e-12: not the code's fault
+    if v["designation"] == "rotated":
+        v["carrier"] = "dense"; v["int_h0"] = False
+        v["level_rotation"] = P["fd"]["kind"] != "dict" and rnd.random() < 0.7
+        v["np_seed"] = rnd.randrange(2**31)
+    if v["designation"] == "blockseries": v["container"] = "dict"
+    return v
+
+def run_impl_numeric(P, requests, v, rnd):
+    """the same problem through the floating-point code in presentation `v`; returns full d x d matrices in the canonical basis"""
     from scipy import sparse
+    import sympy as sp
+    from pymablock.series import BlockSeries
+    d, N, k = P["d"], P["N"], P["k"]; off = P["off"]; sizes = P["sizes"]; zero_n = (0,) * k
     cplx = any(z[1] != 0 for m in P["terms"].values() for row in m for z in row)
-    def conv(m):
-        a = to_float(m)
-        if not cplx: a = a.real.copy()
-        return sparse.csr_array(a) if carrier == "sparse" else a
-    H = {n: conv(m) for n, m in P["terms"].items()}
-    fd = P["fd_py"]
-    Ht, U, Ud = block_diagonalize(H, subspace_indices=P["blocks"], fully_diagonalize=fd, hermitian=P["hermitian"])
+    mats = {}
+    for n, m in P["terms"].items():
+        a = to_float(m); mats[n] = a if cplx else a.real.copy()
+    if v["int_h0"]: mats[zero_n] = np.rint(mats[zero_n].real).astype(int)
+    R = np.eye(d, dtype=complex)          # rotation inside degenerate levels (canonical coordinates)
+    kw = {}
+    if v["designation"] == "rotated":
+        rng = np.random.default_rng(v["np_seed"])
+        def unitary(m):
+            z = rng.normal(size=(m, m)) + (1j * rng.normal(size=(m, m)) if cplx else 0)
+            q, _ = np.linalg.qr(z); return q
+        Q = unitary(d)
+        if v.get("level_rotation"):
+            for g in level_groups(P):
+                if len(g) >= 2: R[np.ix_(g, g)] = unitary(len(g))
+        if not cplx: R = R.real.astype(complex)
+        W = Q @ (R if cplx else R.real)                     # new basis vectors (columns) in the rotated frame
+        mats = {n: Q @ m @ Q.conj().T for n, m in mats.items()}
+        kw["subspace_eigenvectors"] = [W[:, off[b]:off[b + 1]] for b in range(N)]
+    def conv(a):
+        c = v["carrier"] if v["carrier"] != "mixed" else rnd.choice(["dense", "sparse", "spmatrix"])
+        return a if c == "dense" else (sparse.csr_array(a) if c == "sparse" else sparse.csr_matrix(a))
+    if v["designation"] == "blocked":
+        H = {n: [[conv(m[off[i]:off[i + 1], off[j]:off[j + 1]]) for j in range(N)] for i in range(N)] for n, m in mats.items()}
+    else:
+        H = {n: conv(m) for n, m in mats.items()}
+    if v["designation"] in ("indices", "blockseries"): kw["subspace_indices"] = P["blocks"]
+    if v["designation"] == "vectors":
+        eye = np.eye(d); kw["subspace_eigenvectors"] = [eye[:, off[b]:off[b + 1]] for b in range(N)]
+    if v["container"] == "list":
+        H = [H[zero_n]] + [H.get(tuple(int(a == b) for b in range(k)), np.zeros((d, d)) if v["designation"] != "blocked" else None) for a in range(k)]
+        if any(x is None for x in H):      # a missing first-order term in block form: fall back to the dict
+            H = {n: H_ for n, H_ in zip([zero_n] + [tuple(int(a == b) for b in range(k)) for a in range(k)], H) if H_ is not None}
+    elif v["container"] == "monomials":
+        syms = sp.symbols("p0:%d" % k); kw_syms = list(syms)
+        H = {sp.Mul(*[s ** e for s, e in zip(syms, n)]) if any(n) else sp.S.One: m for n, m in H.items()}
+    elif v["designation"] == "blockseries":
+        data = dict(H); H = BlockSeries(data=data, shape=(), n_infinite=k)
+    Ht, U, Ud = block_diagonalize(H, fully_diagonalize=P["fd_py"], hermitian=P["hermitian"], **kw)
     S = {"H_tilde": Ht, "U": U, "U†": Ud}; out = []
-    d = P["d"]; off = P["off"]; sizes = P["sizes"]
     for (name, i, j, n) in requests:
         try:
-            v = S[name][(i, j) + tuple(n)]
+            x = S[name][(i, j) + tuple(n)]
         except Exception as e:
             out.append(("err", type(e).__name__, str(e))); continue
         full = np.zeros((d, d), dtype=complex)
-        if v is zero: out.append(("zero", full)); continue
-        if v is one: v = np.eye(sizes[i])
-        if hasattr(v, "toarray"): v = v.toarray()
-        full[off[i]:off[i] + sizes[i], off[j]:off[j] + sizes[j]] = np.asarray(v, dtype=complex)
-        out.append(("val", full))
+        if x is zero: out.append(("zero", full)); continue
+        if x is one: x = np.eye(sizes[i])
+        if hasattr(x, "toarray"): x = x.toarray()
+        full[off[i]:off[i] + sizes[i], off[j]:off[j] + sizes[j]] = np.asarray(x, dtype=complex)
+        out.append(("val", R @ full @ R.conj().T))         # back to the canonical basis
     return out
 
 def to_json(P, requests, algo):
@@ -285,9 +346,12 @@ def main(seed, ncases, driver, out, mode="all"):
             if sum(r[3]) >= 2 and fa != zero_m: nontrivial = True
         # floating-point carriers against the exact model value (rounding proportional to the size of the terms)
         if not any(f["case"] == c for f in failures):
-            carrier = rnd.choice(["dense", "sparse"]); num_stats[carrier] = num_stats.get(carrier, 0) + 1
+            variant = choose_variant(P, rnd); carrier = variant
+            for kk in ("carrier", "designation", "container"): num_stats[kk + "=" + variant[kk]] = num_stats.get(kk + "=" + variant[kk], 0) + 1
+            if variant["int_h0"]: num_stats["int_h0"] = num_stats.get("int_h0", 0) + 1
+            if variant.get("level_rotation"): num_stats["level_rotation"] = num_stats.get("level_rotation", 0) + 1
             try:
-                num = run_impl_numeric(P, reqs, carrier)
+                num = run_impl_numeric(P, reqs, variant, rnd)
             except Exception as e:
                 num = [("exc", type(e).__name__, str(e)[:100])] * len(reqs)
             for r, a, b in zip(reqs, num, model):
